@@ -104,4 +104,12 @@ CHECKS = {
              'Chemical is built through Chemical.blank + add_method + reset_free_energies so that the library\'s own _init_energies, its nine enthalpy/entropy functors and IdealMixture run, and H, S (at three pressures), '
              'Cn in all three phases at transition and off-transition temperatures plus mixture H, Cn, S of two such chemicals must equal the integer values of the path definition (one unit of 1/400 J/mol, 1/20 J/mol/K).',
         note='Trusted: TLC; synthetic chemicals with Cn = 2cT (polynomial family only; database chemicals and "arbitrary Cn symbolically" are not covered); gas pressure term and ideal mixing term removed by the driver using the library\'s R.'),
+    'C02': dict(
+        engine='Energy', category='model_checking',
+        technique='TLA+ enthalpy-ledger spec (Energy.tla: mix with heat input, energy-balanced separation, enthalpy / entropy assignment) model-checked by TLC; histories executed on real streams (database chemicals) are validated step by step by TLC against the ledger in fixed point',
+        text='TLC explores all sequences of feed / mix / separate / assign over 3 streams with small integer enthalpies (ledger invariant: the pool of enthalpy changes only by heat added or assigned; receiver pressure = min over non-empty inlets). '
+             'Random histories on real liquid / gas / two-phase streams of Water, Ethanol, Propanol, N2 (mix_from with energy balance and Q incl. the receiver among the inlets and single / no non-empty inlets, separate_out after a mix, '
+             'H / h / S assignment with targets taken at temperatures inside and outside 250-500 K, re-assignment of the current value) are logged with H, P, emptiness before and after and TLC judges every step: '
+             'H_out = sum H_in + Q within C_flow x 1e-5 K, P = min P, separation leaves the difference, read-back of assigned H / h / S, temperature stays inside the model range, same-value assignment leaves T.',
+        note='Trusted: TLC; enthalpy read through the library (C07/C14 cover its meaning); tolerance is ten times the documented solver resolution. Known finding: entropy assignment on liquid phases (noise of the thermo package liquid entropy).'),
 }
